@@ -41,7 +41,7 @@ def main():
         t0 = time.time()
         try:
             p = subprocess.run([str(VERIF / "bin/check"), pid, "--tier", a.tier], capture_output=True, text=True, timeout=3600,
-                               env=dict(os.environ, GRIFFE_REPO=tree))
+                               env=dict(os.environ, GRIFFE_REPO=tree, VERIF_EVIDENCE_DIR=str(VERIF / 'build' / 'seeded-evidence')))
             out, rc = p.stdout, p.returncode
         except subprocess.TimeoutExpired:
             out, rc = "TIMEOUT", -1
